@@ -31,6 +31,7 @@ type Engine struct {
 	fnIDs     map[string]int
 	fnByKey   map[string]*ssa.Function
 	errorType *types.Interface
+	rtErrType types.Type
 	sizes     types.Sizes
 	repo      string
 	verifDir  string
@@ -82,6 +83,11 @@ func loadEngine(repo, verifDir string) (*Engine, error) {
 	}
 	e.sizes = types.SizesFor("gc", "amd64")
 	e.errorType = types.Universe.Lookup("error").Type().Underlying().(*types.Interface)
+	if rp := e.importedPkg("runtime"); rp != nil {
+		if o := rp.Scope().Lookup("Error"); o != nil {
+			e.rtErrType = o.Type()
+		}
+	}
 	// index functions by contract key
 	for fn := range ssautil.AllFunctions(prog) {
 		if fn.Pkg == nil && fn.Parent() == nil {
@@ -303,6 +309,7 @@ type Unit struct {
 	Contract    *Contract
 	File        string
 	timeoutMs   int
+	PrimaryS    float64
 }
 
 // good reports whether an obligation is settled in the right direction.
@@ -425,9 +432,18 @@ func (e *Engine) runUnit(f *fx, c *Contract) {
 		// axioms go into a separate list; only those mentioning symbols used by the unit are emitted
 		n := len(sc.lines)
 		t := f.specBool(ax, f.topEnv)
-		decls := append([]string{}, sc.lines[n:]...)
-		sc.lines = sc.lines[:n]
-		sc.axioms = append(sc.axioms, strings.Join(append(decls, "(assert "+t.S+")"), "\n"))
+		// declarations made while evaluating the axiom stay in the script (later code may use the same
+		// constants); assertions made on the way belong to the axiom
+		var keep, own []string
+		for _, l := range sc.lines[n:] {
+			if strings.HasPrefix(l, "(declare-") {
+				keep = append(keep, l)
+			} else {
+				own = append(own, l)
+			}
+		}
+		sc.lines = append(sc.lines[:n], keep...)
+		sc.axioms = append(sc.axioms, strings.Join(append(own, "(assert "+t.S+")"), "\n"))
 	}
 	sc.axiomPos = len(sc.lines)
 	if c != nil {
